@@ -11,13 +11,14 @@ package internals
 //@ pool InternalIssueMapPool *ErrsMap
 
 //@ func NewExecCtx(errs, fmter)
+//@   fresh
 //@   modifies nothing
 //@   ensures[C07,C11] fmter_set: result.Fmter == fmter
 //@   ensures[C07] errors_set: result.Errors == errs
 //@   ensures[C07] m_reset: result.m == nil
-//@   ensures[C07] owned: isnew(result)
 
 //@ func (*ExecCtx).NewSchemaCtx(c, val, destPtr, path, dtype)
+//@   fresh
 //@   modifies nothing
 //@   ensures[C07,C12] exec: result.ExecCtx == c
 //@   ensures[C07] data: result.Data == val
@@ -27,9 +28,9 @@ package internals
 //@   ensures[C07,C05] cancatch_reset: !result.CanCatch
 //@   ensures[C07,C05] exit_reset: !result.Exit
 //@   ensures[C07] hascaught_reset: !result.HasCaught
-//@   ensures[C07] owned: isnew(result)
 
 //@ func (*ExecCtx).NewValidateSchemaCtx(c, valPtr, path, dtype)
+//@   fresh
 //@   modifies nothing
 //@   ensures[C07,C12] exec: result.ExecCtx == c
 //@   ensures[C07] data: result.Data == nil
@@ -39,9 +40,9 @@ package internals
 //@   ensures[C07,C05] cancatch_reset: !result.CanCatch
 //@   ensures[C07,C05] exit_reset: !result.Exit
 //@   ensures[C07] hascaught_reset: !result.HasCaught
-//@   ensures[C07] owned: isnew(result)
 
 //@ func NewZogIssue()
+//@   fresh
 //@   modifies nothing
 //@   ensures[C07] code: result.Code == ""
 //@   ensures[C07] path: result.Path == ""
@@ -50,14 +51,231 @@ package internals
 //@   ensures[C07] params: result.Params == nil
 //@   ensures[C07] message: result.Message == ""
 //@   ensures[C07] err: result.Err == nil
-//@   ensures[C07] owned: isnew(result)
 
 //@ func NewErrsList()
+//@   fresh
 //@   modifies nothing
 //@   ensures[C07,C02] list_reset: result.List == nil
-//@   ensures[C07] owned: isnew(result)
 
 //@ func NewErrsMap()
+//@   fresh
 //@   modifies nothing
 //@   ensures[C07,C02] map_reset: result.M == nil
-//@   ensures[C07] owned: isnew(result)
+
+// ---- shared vocabulary
+
+//@ specfun last(Log) Ptr as *ZogIssue
+//@ smt (assert (forall ((l Log) (x Ptr)) (! (= (zz_last (zz_push l x)) x) :pattern ((zz_push l x)))))
+//@ spec LC(c) = L(c.ExecCtx.Errors)
+//@ spec zrep(s) = (istype(s, *ErrsList) ==> ((s.(*ErrsList).List == nil) <==> (L(s) == empty()))) && (istype(s, *ErrsMap) ==> ((s.(*ErrsMap).M == nil) <==> (L(s) == empty())))
+//@ spec wfexec(x) = x != nil && x.Errors != nil && x.Fmter != nil && (istype(x.Errors, *ErrsList) || istype(x.Errors, *ErrsMap)) && zrep(x.Errors)
+//@ spec wfctx(c) = c != nil && wfexec(c.ExecCtx) && c.Path != nil
+//@ spec clean(c) = !c.CanCatch && !c.Exit
+
+// Abstract rendered path of a PathBuilder (ghost sequence; see PathBuilder contracts).
+//@ smt (declare-sort PathSeq 0)
+//@ specfun ppush(PathSeq, String) PathSeq
+//@ specfun ppop(PathSeq) PathSeq
+//@ specfun prender(PathSeq) String
+//@ smt (assert (forall ((s PathSeq) (x String)) (! (= (zz_ppop (zz_ppush s x)) s) :pattern ((zz_ppush s x)))))
+//@ ghost PSEQ(Ptr) PathSeq
+
+// ---- function-type contracts (assumed for user callbacks, proved for zog's own closures)
+
+// A formatter only sets the message of the issue it is given (assumption A7).
+//@ functype IssueFmtFunc(self, e, p)
+//@   requires e != nil
+//@   modifies e.Message
+
+// A bool test is pure; its verdict is left unconstrained (any test).
+//@ functype BoolTFunc(self, val, ctx)
+//@   pure
+
+// A test function either leaves the node untouched (verdict: pass) or does exactly what
+// ctx.AddIssue(ctx.IssueFromTest(ctx.Test, val)) does (verdict: fail).
+//@ spec issued_from_test(c, t, val) = LC(c) == push(old(LC(c)), last(LC(c))) && last(LC(c)) != nil && last(LC(c)).Code == t.IssueCode && last(LC(c)).Dtype == c.DType && last(LC(c)).Value == val && last(LC(c)).Params == t.Params && last(LC(c)).Path == ite(t.IssuePath != "", t.IssuePath, prender(PSEQ(c.Path)))
+//@ spec tfunc_pass(c) = unchanged(c.Exit) && unchanged(LC(c))
+//@ spec tfunc_fail(c, val) = ite(c.CanCatch, c.Exit && unchanged(LC(c)), unchanged(c.Exit) && issued_from_test(c, c.Test, val))
+//@ functype TFunc(self, val, ctx)
+//@   requires[C12] ctx_is_schemactx: istype(ctx, *SchemaCtx) && wfctx(ctx.(*SchemaCtx))
+//@   requires[C12,C01] test_set: ctx.(*SchemaCtx).Test != nil
+//@   modifies ctx.(*SchemaCtx).Exit, LC(ctx.(*SchemaCtx))
+//@   ensures[C01,C02,C05] outcome: tfunc_pass(ctx.(*SchemaCtx)) || tfunc_fail(ctx.(*SchemaCtx), val)
+//@   ensures zrep(ctx.(*SchemaCtx).ExecCtx.Errors)
+
+// ---- interface contracts
+
+//@ iface ZogIssues.Add(self, path, err)
+//@   requires self != nil && (istype(self, *ErrsList) || istype(self, *ErrsMap))
+//@   requires rep: zrep(self)
+//@   modifies L(self), when(istype(self, *ErrsList), self.(*ErrsList).List), when(istype(self, *ErrsMap), self.(*ErrsMap).M), anyelems(Ptr), mapsof(ZogIssueMap)
+//@   ghost_update L(self) := push(L(self), err)
+//@   ensures[C02] rep: zrep(self)
+
+//@ iface ZogIssues.IsEmpty(self)
+//@   requires self != nil && (istype(self, *ErrsList) || istype(self, *ErrsMap))
+//@   requires rep: zrep(self)
+//@   pure
+//@   ensures[C02] result == (L(self) == empty())
+
+//@ spec ctxexec(x) = ite(istype(x, *SchemaCtx), x.(*SchemaCtx).ExecCtx, x.(*ExecCtx))
+//@ iface Ctx.AddIssue(self, e)
+//@   requires (istype(self, *SchemaCtx) && wfctx(self.(*SchemaCtx))) || (istype(self, *ExecCtx) && wfexec(self.(*ExecCtx)))
+//@   requires e != nil
+//@   modifies when(istype(self, *SchemaCtx), self.(*SchemaCtx).Exit), L(ctxexec(self).Errors), e.Message
+//@   ensures istype(self, *SchemaCtx) && old(self.(*SchemaCtx).CanCatch) ==> self.(*SchemaCtx).Exit && unchanged(L(ctxexec(self).Errors))
+//@   ensures istype(self, *SchemaCtx) && !old(self.(*SchemaCtx).CanCatch) ==> unchanged(self.(*SchemaCtx).Exit)
+//@   ensures !(istype(self, *SchemaCtx) && old(self.(*SchemaCtx).CanCatch)) ==> L(ctxexec(self).Errors) == push(old(L(ctxexec(self).Errors)), e)
+//@   ensures old(e.Message) != "" ==> e.Message == old(e.Message)
+//@   ensures zrep(ctxexec(self).Errors)
+
+// ---- issue container implementations
+
+//@ func (*ErrsList).Add(e, path, err)
+//@   implements iface ZogIssues.Add
+//@   requires e != nil
+//@   modifies e.List, anyelems(Ptr), L(box(e))
+//@   ensures[C02,C10] appended: len(e.List) == old(len(e.List)) + 1 && e.List[len(e.List)-1] == err
+//@   ensures[C02] nonnil: e.List != nil
+
+//@ func (*ErrsList).IsEmpty(e)
+//@   implements iface ZogIssues.IsEmpty
+//@   requires e != nil
+//@   pure
+//@   ensures[C02] result == (e.List == nil)
+
+//@ func (*ErrsMap).Add(s, p, err)
+//@   implements iface ZogIssues.Add
+//@   requires s != nil
+//@   modifies s.M, anyelems(Ptr), mapsof(ZogIssueMap), L(box(s))
+//@   ensures[C02] nonnil: s.M != nil
+
+//@ func (*ErrsMap).IsEmpty(s)
+//@   implements iface ZogIssues.IsEmpty
+//@   requires s != nil
+//@   pure
+//@   ensures[C02] result == (s.M == nil)
+
+// ---- execution context
+
+//@ func (*ExecCtx).HasErrored(c)
+//@   requires wfexec(c)
+//@   pure
+//@   ensures[C02,C12] result == (L(c.Errors) != empty())
+
+//@ func (*ExecCtx).AddIssue(c, e)
+//@   requires wfexec(c) && e != nil
+//@   modifies e.Message, L(c.Errors), when(istype(c.Errors, *ErrsList), c.Errors.(*ErrsList).List), when(istype(c.Errors, *ErrsMap), c.Errors.(*ErrsMap).M), anyelems(Ptr), mapsof(ZogIssueMap)
+//@   ensures[C02] logged: L(c.Errors) == push(old(L(c.Errors)), e)
+//@   ensures[C11] msg_kept: old(e.Message) != "" ==> e.Message == old(e.Message)
+//@   ensures[C02] rep: zrep(c.Errors)
+
+//@ func (*ExecCtx).Set(c, key, val)
+//@   requires c != nil
+//@   modifies c.m, mapof(c.m)
+//@   ensures[C12,C07] stored: c.m != nil && has(c.m, key) && c.m[key] == val
+
+//@ func (*ExecCtx).Get(c, key)
+//@   requires c != nil
+//@   pure
+//@   ensures[C12,C07] lookup: result == c.m[key]
+
+//@ func (*ExecCtx).SetIssueFormatter(c, fmter)
+//@   requires c != nil
+//@   modifies c.Fmter
+//@   ensures[C11] c.Fmter == fmter
+
+// ---- schema context
+
+//@ func (*SchemaCtx).AddIssue(c, e)
+//@   requires wfctx(c) && e != nil
+//@   modifies c.Exit, e.Message, LC(c), when(istype(c.ExecCtx.Errors, *ErrsList), c.ExecCtx.Errors.(*ErrsList).List), when(istype(c.ExecCtx.Errors, *ErrsMap), c.ExecCtx.Errors.(*ErrsMap).M), anyelems(Ptr), mapsof(ZogIssueMap)
+//@   ensures[C05,C01] swallow: old(c.CanCatch) ==> c.Exit && unchanged(LC(c))
+//@   ensures[C02,C05] record: !old(c.CanCatch) ==> unchanged(c.Exit) && LC(c) == push(old(LC(c)), e)
+//@   ensures[C11] msg_kept: old(e.Message) != "" ==> e.Message == old(e.Message)
+//@   ensures[C02] rep: zrep(c.ExecCtx.Errors)
+
+//@ func (*SchemaCtx).IssueFromTest(c, test, val)
+//@   fresh
+//@   requires wfctx(c) && test != nil
+//@   modifies nothing
+//@   ensures[C11,C02] code: result.Code == test.IssueCode
+//@   ensures[C10,C02] path: result.Path == ite(test.IssuePath != "", test.IssuePath, prender(PSEQ(c.Path)))
+//@   ensures[C11] dtype: result.Dtype == c.DType
+//@   ensures[C11] value: result.Value == val
+//@   ensures[C11] params: result.Params == test.Params
+//@   ensures[C07] err_reset: result.Err == nil
+//@   ensures[C11,C07] message_default: test.IssueFmtFunc == nil ==> result.Message == ""
+
+//@ func (*SchemaCtx).IssueFromCoerce(c, err)
+//@   fresh
+//@   requires wfctx(c)
+//@   modifies nothing
+//@   ensures[C11,C02] code: result.Code == "coerce"
+//@   ensures[C10,C02] path: result.Path == prender(PSEQ(c.Path))
+//@   ensures[C11] dtype: result.Dtype == c.DType
+//@   ensures[C11] value: result.Value == c.Data
+//@   ensures[C11] err: result.Err == err
+//@   ensures[C07] params_reset: result.Params == nil
+//@   ensures[C07] message_reset: result.Message == ""
+
+//@ func (*SchemaCtx).Issue(c)
+//@   fresh
+//@   requires wfctx(c)
+//@   modifies nothing
+//@   ensures[C07] code: result.Code == ""
+//@   ensures[C10] path: result.Path == prender(PSEQ(c.Path))
+//@   ensures[C11] dtype: result.Dtype == c.DType
+//@   ensures[C11] value: result.Value == c.Data
+//@   ensures[C07] params_reset: result.Params == nil
+//@   ensures[C07] message_reset: result.Message == ""
+//@   ensures[C07] err_reset: result.Err == nil
+
+//@ func (*SchemaCtx).IssueFromUnknownError(c, err)
+//@   requires wfctx(c)
+//@   modifies nothing
+//@   ensures[C12] passthrough: istype(err, *ZogIssue) ==> result == err.(*ZogIssue)
+//@   ensures[C12] wrapped: !istype(err, *ZogIssue) ==> isnew(result) && result.Err == err && result.Path == prender(PSEQ(c.Path)) && result.Code == "" && result.Message == "" && result.Params == nil && result.Dtype == c.DType
+
+// ---- path builder (bodies proved against the ghost sequence in the C10 group)
+
+//@ func (*PathBuilder).String(p)
+//@   trusted
+//@   requires p != nil
+//@   pure
+//@   ensures result == prender(PSEQ(p))
+
+//@ func (*PathBuilder).Push(p, path)
+//@   trusted
+//@   requires p != nil && path != nil
+//@   modifies all(p), elems(*p), PSEQ(p)
+//@   ghost_update PSEQ(p) := ppush(PSEQ(p), *path)
+//@   ensures result == p
+
+//@ func (*PathBuilder).Pop(p)
+//@   trusted
+//@   requires p != nil
+//@   modifies all(p), PSEQ(p)
+//@   ghost_update PSEQ(p) := ppop(PSEQ(p))
+
+// ---- tests
+
+//@ func TestFuncFromBool(fn, test)
+//@   requires[C17] fn != nil && test != nil
+//@   modifies test.Func
+//@   ensures[C17] test.Func != nil
+
+//@ func TestNotFuncFromBool(fn, test)
+//@   requires[C17] fn != nil && test != nil
+//@   modifies test.Func
+//@   ensures[C17] test.Func != nil
+
+//@ func TestFuncFromBool$1(val, ctx)
+//@   captures[C17] fn_set: fn != nil
+//@   implements functype TFunc
+//@   modifies ctx.(*SchemaCtx).Exit, LC(ctx.(*SchemaCtx)), when(istype(ctx.(*SchemaCtx).ExecCtx.Errors, *ErrsList), ctx.(*SchemaCtx).ExecCtx.Errors.(*ErrsList).List), when(istype(ctx.(*SchemaCtx).ExecCtx.Errors, *ErrsMap), ctx.(*SchemaCtx).ExecCtx.Errors.(*ErrsMap).M), anyelems(Ptr), mapsof(ZogIssueMap), keyof(String)
+
+//@ func TestNotFuncFromBool$1(val, ctx)
+//@   captures[C17] fn_set: fn != nil
+//@   implements functype TFunc
+//@   modifies ctx.(*SchemaCtx).Exit, LC(ctx.(*SchemaCtx)), when(istype(ctx.(*SchemaCtx).ExecCtx.Errors, *ErrsList), ctx.(*SchemaCtx).ExecCtx.Errors.(*ErrsList).List), when(istype(ctx.(*SchemaCtx).ExecCtx.Errors, *ErrsMap), ctx.(*SchemaCtx).ExecCtx.Errors.(*ErrsMap).M), anyelems(Ptr), mapsof(ZogIssueMap), keyof(String)
